@@ -4,9 +4,11 @@ package main
 // R-C06-EOF, RAW, HTMLNODE, COMMENT, TT, VERB.
 
 import (
+	"fmt"
 	"go/constant"
 	"go/token"
 	"go/types"
+	"regexp"
 	"sort"
 	"strconv"
 	"strings"
@@ -28,6 +30,7 @@ func checkC06(p *Prog, r *Report) {
 	ruleC06TemplateTag(p, a, r)
 	ruleC06Verbatim(p, a, r)
 	ruleC06Redispatch(p, a, r)
+	ruleC06VerbatimTags(p, a, r)
 	ruleC06Source(p, a, r)
 	ruleC06VerbatimBody(p, a, r)
 }
@@ -892,4 +895,261 @@ func ruleC06Redispatch(p *Prog, a *Anchors, r *Report) {
 // ReachesFromInstrAvoiding: can control reach `target` from the start of block `from` without executing `avoid`?
 func ReachesFromInstrAvoiding(from *ssa.BasicBlock, target ssa.Instruction, avoid ssa.Instruction) bool {
 	return !MustPassFrom(from, 0, target, func(x ssa.Instruction) bool { return x == avoid })
+}
+
+// ---- R-C06-VERBTAG -----------------------------------------------------------
+
+// verbDecider: one condition that decides a switch of verbatim mode, as a predicate over "the rest of the input".
+type verbDecider struct {
+	desc  string
+	match func(s string) (end int, ok bool) // end < 0: the decider says nothing about the width
+}
+
+// constPatternOf: the constant pattern a *regexp.Regexp value was compiled from (a package variable initialised once
+// with regexp.MustCompile(<const>)).
+func constPatternOf(p *Prog, v ssa.Value) (string, bool) {
+	if u, ok := v.(*ssa.UnOp); ok {
+		if g, ok := u.X.(*ssa.Global); ok {
+			if ic := globalInitCall(p, g); ic != nil && len(ic.Common().Args) == 1 {
+				return constString(ic.Common().Args[0])
+			}
+		}
+	}
+	return "", false
+}
+
+// decidersOf: the conditions on whose true edge `in` is reached that are pattern tests of the input; `opaque` is set
+// when a condition that is neither such a test nor a test of the mode flag takes part (a hand-written matcher).
+func decidersOf(p *Prog, in ssa.Instruction) (ds []verbDecider, opaque string) {
+	seen := map[ssa.Value]bool{}
+	eachDominatingCond(in, func(c ssa.Value, pol bool) bool {
+		if seen[c] {
+			return false
+		}
+		switch x := c.(type) {
+		case *ssa.Call:
+			cal := x.Common().StaticCallee()
+			if cal == nil {
+				return false
+			}
+			switch p.extName(cal) {
+			case "strings.HasPrefix":
+				if k, isC := constString(x.Common().Args[1]); isC && pol {
+					seen[c] = true
+					ds = append(ds, verbDecider{"HasPrefix " + strconv.Quote(k), func(s string) (int, bool) {
+						if strings.HasPrefix(s, k) {
+							return len(k), true
+						}
+						return 0, false
+					}})
+				}
+			case "(*regexp.Regexp).MatchString":
+				if pat, isC := constPatternOf(p, x.Common().Args[0]); isC && pol {
+					if re, err := regexp.Compile(pat); err == nil {
+						seen[c] = true
+						ds = append(ds, verbDecider{"MatchString " + strconv.Quote(pat), func(s string) (int, bool) { return -1, re.MatchString(s) }})
+					}
+				}
+			default:
+				if p.InPkg(cal) && pol {
+					opaque = "call of " + cal.Name()
+				}
+			}
+		case *ssa.BinOp:
+			// loc := re.FindStringIndex(rest); loc != nil
+			if x.Op != token.NEQ && x.Op != token.EQL {
+				if _, isCall := x.X.(*ssa.Call); isCall {
+					if cal := x.X.(*ssa.Call).Common().StaticCallee(); cal != nil && p.InPkg(cal) {
+						opaque = "comparison of the result of " + cal.Name()
+					}
+				}
+				return false
+			}
+			call, isCall := x.X.(*ssa.Call)
+			if !isCall || !isNilConst(x.Y) || call.Common().StaticCallee() == nil {
+				return false
+			}
+			if p.extName(call.Common().StaticCallee()) == "(*regexp.Regexp).FindStringIndex" && (x.Op == token.NEQ) == pol {
+				if pat, isC := constPatternOf(p, call.Common().Args[0]); isC {
+					if re, err := regexp.Compile(pat); err == nil {
+						seen[c] = true
+						ds = append(ds, verbDecider{"FindStringIndex " + strconv.Quote(pat), func(s string) (int, bool) {
+							loc := re.FindStringIndex(s)
+							if loc == nil || loc[0] != 0 {
+								return 0, false
+							}
+							return loc[1], true
+						}})
+					}
+				}
+			}
+		}
+		return false
+	})
+	return ds, opaque
+}
+
+// ruleC06VerbatimTags: "the body of a verbatim block is emitted literally and never interpreted": the lexer enters the
+// mode exactly at a verbatim tag and leaves it exactly at an endverbatim tag, in every spelling a tag may have
+// (`{%verbatim%}`, `{%  endverbatim  %}`), and at nothing else. The conditions that guard the two mode switches are
+// constant patterns; they are evaluated here on every string of up to 6 items over
+// {"{%", "%}", " ", "\t", "verbatim", "endverbatim", "x", "-"} and compared with `{%` blanks* NAME blanks* `%}`.
+func ruleC06VerbatimTags(p *Prog, a *Anchors, r *Report) {
+	r.Begin("R-C06-VERBTAG", "the conditions under which the lexer enters/leaves verbatim mode, evaluated as constant patterns on all strings of up to 6 items over {{%,%},space,tab,verbatim,endverbatim,x,-}, hold exactly for `{%` blanks* (end)verbatim blanks* `%}` at the position, and the lexer advances by exactly the tag", 2)
+	run := p.Method("lexer", "run")
+	if run == nil {
+		r.Unk("anchor", "-", "anchor unresolved: (*lexer).run")
+		return
+	}
+	alphabet := []string{"{%", "%}", " ", "\t", "verbatim", "endverbatim", "x", "-"}
+	var inputs []string
+	var gen func(prefix string, left int)
+	gen = func(prefix string, left int) {
+		inputs = append(inputs, prefix)
+		if left == 0 {
+			return
+		}
+		for _, ch := range alphabet {
+			gen(prefix+ch, left-1)
+		}
+	}
+	gen("", 6)
+	for _, b := range run.Blocks {
+		for _, in := range b.Instrs {
+			st, ok := in.(*ssa.Store)
+			if !ok || !isFieldAddrOf(st.Addr, "lexer", "inVerbatim") {
+				continue
+			}
+			k, isC := st.Val.(*ssa.Const)
+			if !isC || k.Value == nil || k.Value.Kind() != constant.Bool {
+				r.Unk("run:mode-switch", p.InstrPos(in), "verbatim mode is set to a computed value")
+				continue
+			}
+			name, key := "endverbatim", "run:leave-verbatim:tag"
+			if constant.BoolVal(k.Value) {
+				name, key = "verbatim", "run:enter-verbatim:tag"
+			}
+			ref := regexp.MustCompile(`^\{%[ \t]*` + name + `[ \t]*%\}`)
+			ds, opaque := decidersOf(p, in)
+			if opaque != "" {
+				r.Assume(key, p.InstrPos(in), "the switch is (also) decided by %s, not by constant patterns: what it accepts is not evaluated here", opaque)
+				continue
+			}
+			if len(ds) == 0 {
+				r.Unk(key, p.InstrPos(in), "no pattern test of the input guards the switch")
+				continue
+			}
+			bad := ""
+			for _, s := range inputs {
+				all, end := true, -1
+				for _, d := range ds {
+					e, ok := d.match(s)
+					if !ok {
+						all = false
+						break
+					}
+					if e >= 0 && e > end {
+						end = e
+					}
+				}
+				loc := ref.FindStringIndex(s)
+				if all != (loc != nil) {
+					bad = fmt.Sprintf("at %q the lexer %s although the text %s", s, map[bool]string{true: "switches", false: "does not switch"}[all], map[bool]string{true: "starts with the tag", false: "does not start with the tag"}[loc != nil])
+					break
+				}
+				if all && end >= 0 && end != loc[1] {
+					bad = fmt.Sprintf("at %q the patterns cover %d bytes, the tag has %d", s, end, loc[1])
+					break
+				}
+			}
+			var descs []string
+			for _, d := range ds {
+				descs = append(descs, d.desc)
+			}
+			if bad != "" {
+				r.Bad(key, p.InstrPos(in), "%s (deciders: %s): a tag written without/with more blanks is not recognised — the block does not end, or its body is interpreted", bad, strings.Join(descs, " and "))
+			} else {
+				r.OK(key, p.InstrPos(in), "%s accept exactly `{%%` blanks* %s blanks* `%%}` on %d strings", strings.Join(descs, " and "), name, len(inputs))
+			}
+			// the advance: pos is moved by the end of the match (or by the length of the constant that was matched)
+			adv := false
+			for _, bb := range run.Blocks {
+				if !b.Dominates(bb) && bb != b {
+					continue
+				}
+				for _, x := range bb.Instrs {
+					s2, isSt := x.(*ssa.Store)
+					if !isSt || !isFieldAddrOf(s2.Addr, "lexer", "pos") || bb != b {
+						continue
+					}
+					bo, isBo := s2.Val.(*ssa.BinOp)
+					if !isBo || bo.Op != token.ADD {
+						continue
+					}
+					adv = true
+					w := bo.Y
+					wkey := strings.TrimSuffix(key, ":tag") + ":width"
+					switch wv := w.(type) {
+					case *ssa.Const:
+						n, _ := constInt(wv)
+						okW := false
+						for _, d := range ds {
+							if strings.HasPrefix(d.desc, "HasPrefix ") {
+								if uq, err := strconv.Unquote(strings.TrimPrefix(d.desc, "HasPrefix ")); err == nil && int64(len(uq)) == n && ref.MatchString(uq) {
+									okW = true
+								}
+							}
+						}
+						if okW {
+							r.OK(wkey, p.InstrPos(x), "advances by the length of the constant that was matched")
+						} else {
+							r.Bad(wkey, p.InstrPos(x), "the lexer advances by the constant %d, which is not the length of what was matched: with another spelling of the tag part of it is emitted as text or text is swallowed", n)
+						}
+					default:
+						// loc[1]: a load of index 1 of the FindStringIndex result
+						okW := false
+						if u, isU := w.(*ssa.UnOp); isU {
+							if ia, isIA := u.X.(*ssa.IndexAddr); isIA {
+								if idx, isK := constInt(ia.Index); isK && idx == 1 {
+									if c, isCall := ia.X.(*ssa.Call); isCall && c.Common().StaticCallee() != nil && p.extName(c.Common().StaticCallee()) == "(*regexp.Regexp).FindStringIndex" {
+										okW = true
+									}
+								}
+							}
+						}
+						if okW {
+							r.OK(wkey, p.InstrPos(x), "advances by the end of the match")
+						} else {
+							r.Unk(wkey, p.InstrPos(x), "cannot relate the advance %s to what was matched", p.VN(w))
+						}
+					}
+				}
+			}
+			if !adv {
+				r.Unk(strings.TrimSuffix(key, ":tag")+":width", p.InstrPos(in), "no advance of the position next to the mode switch")
+			}
+		}
+	}
+}
+
+// eachDominatingCond calls fn for every branch condition that holds (with the given polarity) whenever `in` executes:
+// the conditions of the blocks dominating in whose taken successor has that block as its only predecessor and
+// dominates in's block. Negations are normalised.
+func eachDominatingCond(in ssa.Instruction, fn func(c ssa.Value, pol bool) bool) {
+	b := in.Block()
+	for _, d := range b.Parent().Blocks {
+		if d == b || !d.Dominates(b) || len(d.Instrs) == 0 {
+			continue
+		}
+		iff, ok := d.Instrs[len(d.Instrs)-1].(*ssa.If)
+		if !ok {
+			continue
+		}
+		for i, s := range d.Succs {
+			if len(s.Preds) == 1 && s.Dominates(b) {
+				c, pol := normCond(iff.Cond, i == 0)
+				fn(c, pol)
+			}
+		}
+	}
 }
